@@ -21,7 +21,7 @@ for p in props:
     for m in sorted(glob.glob(os.path.join(V, 'seeded', pid + '*', 'meta.json'))):
         d = json.load(open(m))
         prev.append(f"- {d.get('name')}: {' '.join(str(d.get('what_it_breaks', '')).split())[:230]}")
-    text = f"""You are given a Python library (cai-causal-graph: mixed-edge-type causal graphs, time-series lagged graphs) checked out as a git worktree at {wt} (this is YOUR scratch copy; work only inside it; do not touch /repo or /verif, and do not read anything under /verif). Python with all dependencies: /venv/bin/python ; run the test-suite with: cd {wt} && /venv/bin/python -m pytest -q -p no:cacheprovider -x -n 6   (256 tests, about 90-200 s depending on machine load).
+    text = f"""You are given a Python library (cai-causal-graph: mixed-edge-type causal graphs, time-series lagged graphs) checked out as a git worktree at {wt} (this is YOUR scratch copy; work only inside it; do not touch /repo or /verif, and do not read anything under /verif). Python with all dependencies: /venv/bin/python ; run the test-suite with: cd {wt} && /venv/bin/python -m pytest -q -p no:cacheprovider -x -n 4   (256 tests, about 90-200 s depending on machine load).
 
 Here is a semantic property the library is supposed to satisfy:
 
@@ -32,7 +32,7 @@ QUANTIFIER: {(p.get('quantifier') or {}).get('text', '') if isinstance(p.get('qu
 Earlier rounds already produced the following changes for this property; yours must differ from ALL of them in BOTH the site and the mechanism. Look for clauses of the statement that none of them attacks, other functions and argument forms, other files (graph_components.py / interfaces.py / utils.py / type_definitions.py / metadata_handler.py / identify_utils.py / time_series_causal_graph.py / causal_graph.py), other kinds of input (empty graphs, one node, isolated nodes, names with blanks / unicode / digits, large lags, positive lags, all six edge types, Node-object arguments, plain-string enum values, graphs rebuilt from dictionaries / matrices / networkx), other kinds of history (deletions, replacements, renames, bulk adders, failing calls in the middle, queries between mutations, results of one call fed into another):
 {chr(10).join(prev)}
 
-YOUR TASK: produce 4 DIFFERENT, independent, realistic code changes (each one a small patch to files under {wt}/cai_causal_graph/) such that EACH change (i) breaks the property above, (ii) still imports/compiles, (iii) still passes the ENTIRE existing test-suite unchanged (all 256 tests), and (iv) needs something specific to manifest -- a multi-step sequence of operations, an unusual but legitimate input, a particular argument form, warm caches, a particular orientation / edge type / lag combination, or two cooperating sites that each look fine alone -- NOT something any ordinary first use would expose at once. Think like a plausible regression a maintainer could introduce while refactoring or "optimising" (an off-by-one, a check moved after a write, a wrong key / orientation, a forgotten index update in one branch, a cache not reset in one path, an early return, a changed default, a condition that is right for the common case only, a comparison that is right for one type of argument only, a loop that stops early, a sort key that ties). Vary the mechanisms and the places in the code across your 4 changes, and prefer SUBTLE wrong answers over exceptions.
+YOUR TASK: produce 3 DIFFERENT, independent, realistic code changes (each one a small patch to files under {wt}/cai_causal_graph/) such that EACH change (i) breaks the property above, (ii) still imports/compiles, (iii) still passes the ENTIRE existing test-suite unchanged (all 256 tests), and (iv) needs something specific to manifest -- a multi-step sequence of operations, an unusual but legitimate input, a particular argument form, warm caches, a particular orientation / edge type / lag combination, or two cooperating sites that each look fine alone -- NOT something any ordinary first use would expose at once. Think like a plausible regression a maintainer could introduce while refactoring or "optimising" (an off-by-one, a check moved after a write, a wrong key / orientation, a forgotten index update in one branch, a cache not reset in one path, an early return, a changed default, a condition that is right for the common case only, a comparison that is right for one type of argument only, a loop that stops early, a sort key that ties). Vary the mechanisms and the places in the code across your 3 changes, and prefer SUBTLE wrong answers over exceptions.
 
 For each change deliver, under {wt}/_seeds/<short_name>/ :
   patch.diff   -- `git diff` of the change against the worktree's HEAD (only library files; apply with `git apply`)
